@@ -17,9 +17,12 @@ constexpr char p8[] = "x";
 constexpr char p9[] = "(ab)+";
 constexpr char p10[] = "0|[1-9][0-9]*";
 constexpr char p11[] = "[--Z-]";
+constexpr char p12[] = "(ab){2}";
+constexpr char p13[] = "(a|bc){3}x";
 constexpr regex::expr<p0> e0; constexpr regex::expr<p1> e1; constexpr regex::expr<p2> e2; constexpr regex::expr<p3> e3;
 constexpr regex::expr<p4> e4; constexpr regex::expr<p5> e5; constexpr regex::expr<p6> e6; constexpr regex::expr<p7> e7;
 constexpr regex::expr<p8> e8; constexpr regex::expr<p9> e9; constexpr regex::expr<p10> e10; constexpr regex::expr<p11> e11;
+constexpr regex::expr<p12> e12; constexpr regex::expr<p13> e13;
 }
 
 template<typename E>
@@ -68,6 +71,7 @@ int main(int argc, char** argv)
     run(P::e0, P::p0, strs, out); run(P::e1, P::p1, strs, out); run(P::e2, P::p2, strs, out); run(P::e3, P::p3, strs, out);
     run(P::e4, P::p4, strs, out); run(P::e5, P::p5, strs, out); run(P::e6, P::p6, strs, out); run(P::e7, P::p7, strs, out);
     run(P::e8, P::p8, strs, out); run(P::e9, P::p9, strs, out); run(P::e10, P::p10, strs, out); run(P::e11, P::p11, strs, out);
+    run(P::e12, P::p12, strs, out); run(P::e13, P::p13, strs, out);
     fclose(out);
     return 0;
 }
